@@ -948,6 +948,10 @@ class DNA(symbolic.Object):
     Returns:
       A DNA object.
     """
+    # NOTE: decisions stored as a list under a name are consumed one by one
+    # below: work on a copy and leave the caller's dict as it is.
+    dict_repr = dict(dict_repr)
+
     def _get_decision(spec: DNASpec):
       """Gets the decision for DNASpec."""
       decision = dict_repr.get(spec.id, None)
